@@ -4,7 +4,7 @@ from .framework import rule, Undecided as RuleUndecided
 from .absint import Interp, State, Undecided
 from .absval import (TOP, agg, arr, bits_of, const, int_const, is_agg, is_int, is_ptr, mk_int, ptr, sym_int, top_int, with_term)
 from .stdmodel import ok, err, some, NONE
-from .mir import tstr, callee_of, tmatch, strip_refs, path_matches
+from .mir import tstr, callee_of, tmatch, strip_refs, path_matches, subterms
 from .ev import all_guards, guarded, g_cmp
 from .fsmodel import ok_returns, err_returns, call_matches
 from .rules_guard import has_sub, last_field
@@ -124,31 +124,61 @@ def mt2(F, R):
         if s["k"] == "Assign" and s["rv"]["k"] == "Aggregate" and s["rv"].get("adt", "").endswith("FatVolume"):
             vols.append((b, dict(zip(s["rv"]["fields"], [pv.term_of_operand(o, b) for o in s["rv"]["ops"]]))))
     R.require(len(vols) == 2, pv, "volumes", "expected one FatVolume literal per FAT type", pv.loc(0))
-    rsvd = ("agg", "BlockCount", [("call", "From::from", [("call", "reserved_block_count", "_")])])
-    nfats_fs = ("agg", "BlockCount", [("bin", "Mul", ("call", "From::from", [("call", "num_fats", "_")]), ("call", "fat_size", "_"))])
-    fds = ("call", "Add::add", [rsvd, nfats_fs])
+    from .poly import peq, ADD, MUL, DIV, C
+    from .dataflow import var_def_terms
+
+    def bpb_atom(term, name):
+        """the call Bpb::<name>(..) inside term (an opaque atom of the layout polynomials)"""
+        for q in subterms(term):
+            if q[0] == "call" and q[1] and q[1].endswith("Bpb::" + name):
+                return q
+        return None
+
+    def layout(term):
+        """reserved + num_fats*fat_size built from the accessor calls found in term; None when one is missing"""
+        rc, nf, fs = bpb_atom(term, "reserved_block_count"), bpb_atom(term, "num_fats"), bpb_atom(term, "fat_size")
+        if rc is None or nf is None or fs is None:
+            return None
+        return ADD(rc, MUL(nf, fs))
+
     for b, v in vols:
         ft = "Fat32" if "Fat32" in tstr(v["fat_specific_info"]) else "Fat16"
         problems = []
-        if tmatch(v["fat_start"], rsvd) is None:
+        rc = bpb_atom(v["fat_start"], "reserved_block_count")
+        if rc is None or not peq(v["fat_start"], rc):
             problems.append("fat_start = %s, expected reserved_block_count" % tstr(v["fat_start"]))
         sf = strip_refs(v["second_fat_start"])
-        sfd = [tstr(d) for d in ([sf] if sf[0] != "var" else __import__("analysis.dataflow", fromlist=["x"]).var_def_terms(pv, sf[1]))]
-        if not (any("Some{add(BlockCount{from(reserved_block_count" in d and "fat_size" in d for d in sfd) and any(d.startswith("None") for d in sfd)):
-            problems.append("second_fat_start defs %s" % sfd)
+        sdefs = [sf] if sf[0] != "var" else [strip_refs(d) for d in var_def_terms(pv, sf[1])]
+        somes = [d for d in sdefs if d[0] == "agg" and d[2] and d[2].endswith("Option::Some")]
+        nones = [d for d in sdefs if d[0] == "agg" and d[2] and d[2].endswith("Option::None")]
+        okp = len(somes) >= 1 and len(nones) >= 1 and len(somes) + len(nones) == len(sdefs)
+        for d in somes:
+            a, f_ = bpb_atom(d, "reserved_block_count"), bpb_atom(d, "fat_size")
+            okp = okp and a is not None and f_ is not None and peq(d[3][0], ADD(a, f_))
+        if not okp:
+            problems.append("second_fat_start defs %s" % [tstr(d) for d in sdefs])
         if sf[0] == "var":
-            # ... chosen by num_fats == 2 exactly (a single-FAT volume has nothing behind its FAT but the root directory / data)
-            is2 = lambda truth: (lambda g: g.kind == "bool" and g.truth is truth and g.term[0] == "cmp" and g.term[1] == "Eq" and "num_fats(" in tstr(g.term[2]) and g.term[3][:2] == ("c", 2))
-            for dd in pv.defs().get(sf[1], []):
-                if dd[0] != "assign":
+            # ... chosen by num_fats == 2 exactly (a single-FAT volume has nothing behind its FAT but the root directory / data):
+            # decide every test of num_fats() for a concrete value and see which definition reaches the volume literal
+            from .rules_r3 import specialise_on
+            for nfv in (0, 1, 2, 3, 255):
+                cut = specialise_on(pv, lambda q: q[0] == "call" and q[1] and q[1].endswith("Bpb::num_fats"), nfv)
+                rs = pv.reach([0], cut_edges=cut)
+                kinds = set()
+                for dd in pv.defs().get(sf[1], []):
+                    if dd[0] != "assign" or dd[1] not in rs or b not in pv.reach([dd[1]], cut_edges=cut):
+                        continue
+                    dv = pv.term_of_rvalue(dd[3], dd[1])
+                    kinds.add("Some" if (dv[0] == "agg" and dv[2] and dv[2].endswith("Option::Some")) else "None" if (dv[0] == "agg" and dv[2] and dv[2].endswith("Option::None")) else "?")
+                if b not in rs:
                     continue
-                dv = pv.term_of_rvalue(dd[3], dd[1])
-                if dv[0] == "agg" and dv[2] and dv[2].endswith("Option::Some") and not guarded(pv, dd[1], is2(True))[0]:
-                    problems.append("a second FAT is assumed without BPB_NumFATs == 2 (every FAT update would be mirrored into whatever follows the only FAT)")
-                if dv[0] == "agg" and dv[2] and dv[2].endswith("Option::None") and not guarded(pv, dd[1], is2(False))[0]:
+                if nfv == 2 and kinds != {"Some"}:
                     problems.append("no second FAT is assumed although BPB_NumFATs == 2 was not excluded")
+                if nfv != 2 and kinds != {"None"}:
+                    problems.append("a second FAT is assumed without BPB_NumFATs == 2 (every FAT update would be mirrored into whatever follows the only FAT) [BPB_NumFATs = %d]" % nfv)
         if ft == "Fat32":
-            if tmatch(v["first_data_block"], fds) is None:
+            lay = layout(v["first_data_block"])
+            if lay is None or not peq(v["first_data_block"], lay):
                 problems.append("FAT32 first_data_block = %s" % tstr(v["first_data_block"]))
             fsi = tstr(v["fat_specific_info"])
             if "first_root_dir_cluster(" not in fsi:
@@ -159,20 +189,28 @@ def mt2(F, R):
         else:
             fsi = v["fat_specific_info"]
             frd = None
-            for s_ in __import__("analysis.mir", fromlist=["subterms"]).subterms(fsi):
+            for s_ in subterms(fsi):
                 if s_[0] == "agg" and s_[2] and s_[2].endswith("Fat16Info"):
                     flds = [f["name"] for f in F.adts["fat::info::Fat16Info"]["variants"][0]["fields"]]
                     frd = dict(zip(flds, s_[3]))
-            if frd is None or tmatch(frd["first_root_dir_block"], fds) is None:
+            lay = layout(frd["first_root_dir_block"]) if frd else None
+            if frd is None or lay is None or not peq(frd["first_root_dir_block"], lay):
                 problems.append("FAT16 first_root_dir_block = %s" % (tstr(frd["first_root_dir_block"]) if frd else None))
-            if frd is not None and "root_entries_count(" not in tstr(frd["root_entries_count"]):
+            rec = bpb_atom(frd["root_entries_count"], "root_entries_count") if frd else None
+            if frd is not None and (rec is None or not peq(frd["root_entries_count"], rec)):
                 problems.append("FAT16 root_entries_count = %s" % tstr(frd["root_entries_count"]))
-            fdb = tstr(v["first_data_block"])
-            want = "add(add(BlockCount{from(reserved_block_count"
-            ceil = "Div(Add(Mul(from(root_entries_count(" in fdb and "0x1ff)" in fdb and "0x200)" in fdb
-            fromb = "from_bytes(Mul(from(root_entries_count(" in fdb
-            if not (fdb.startswith(want) and (ceil or fromb)):
-                problems.append("FAT16 first_data_block must be first_root_dir_block + ceil(root_entries*32/512): %s" % fdb)
+            fdb = v["first_data_block"]
+            lay = layout(fdb)
+            re_ = bpb_atom(fdb, "root_entries_count")
+            okd = False
+            if lay is not None and re_ is not None:
+                okd = peq(fdb, ADD(lay, DIV(ADD(MUL(re_, C(32)), C(511)), C(512))))
+                if not okd:
+                    for q in subterms(fdb):
+                        if q[0] == "call" and q[1] and q[1].endswith("BlockCount::from_bytes") and peq(q[2][0], MUL(re_, C(32))):
+                            okd = okd or peq(fdb, ADD(lay, q))
+            if not okd:
+                problems.append("FAT16 first_data_block must be first_root_dir_block + ceil(root_entries*32/512): %s" % tstr(fdb))
         for fld, acc in (("blocks_per_cluster", "blocks_per_cluster("), ("cluster_count", "total_clusters("), ("lba_start", "lba_start"), ("num_blocks", "num_blocks")):
             if acc not in tstr(v[fld]):
                 problems.append("%s = %s" % (fld, tstr(v[fld])))
@@ -194,34 +232,98 @@ def mt2(F, R):
 def mt4(F, R):
     S = fat_spec()
     cb = F.fn("fat::bpb::Bpb::create_from_bytes")
-    # thresholds via the interpreter: concrete cluster counts around the boundaries
+    # decided by constant propagation through the tests: for boundary values of the cluster count (and every value of the
+    # small fields) which outcome stays reachable - independent of how the tests are written
+    from .specialise import specialise_on, specialise_all, compared_constants
+    from .ev import specialise_enum, resolve_bool_temps
     th = S["fat_type_thresholds"]
-    consts = set()
-    for (gb, gi, g) in all_guards(cb):
-        if g.kind == "bool" and g.term[0] == "cmp" and "cluster_count" in tstr(g.term):
-            consts.add((g.term[1], g.term[3][1] if g.term[3][0] == "c" else None))
-    R.require(consts == {("Lt", th["fat12_below"]), ("Lt", th["fat16_below"])}, cb, "thresholds", "FAT type thresholds are %s; the specification says count < 4085 => FAT12 (unsupported), < 65525 => FAT16, else FAT32" % sorted(consts), cb.loc(0))
-    # classification on the boundary values with the interpreter (cluster_count forced through the comparisons)
-    for (b, i, v) in ok_returns(cb):
-        pass
-    # fs_ver == 0 for FAT32
-    g32 = any(g.kind == "bool" and g.term[0] == "cmp" and g.term[1] == "Eq" and "fs_ver" in tstr(g.term) and g.term[3][:2] == ("c", 0) for (_b, _i, g) in all_guards(cb))
-    R.require(g32, cb, "fs_ver", "FAT32 must be accepted only with BPB_FSVer == 0", cb.loc(0))
-    gf = any(g.kind == "bool" and g.term[0] == "cmp" and "footer" in tstr(g.term) and "FOOTER_VALUE" in tstr(g.term) for (_b, _i, g) in all_guards(cb))
-    R.require(gf, cb, "bpb-footer", "boot sector must be rejected without the 0xAA55 signature", cb.loc(0))
+    lo, hi = th["fat12_below"], th["fat16_below"]
+    is_cc = lambda q: q[0] == "place" and q[2] and q[2][-1] == "cluster_count"
+    is_ft = lambda q: q[0] == "place" and q[2] and q[2][-1] == "fat_type"
+    call_is = lambda nm: (lambda q: q[0] == "call" and q[1] and q[1].endswith(nm))
+    cmpc = compared_constants(cb, is_cc)
+    R.require(cmpc and cmpc <= {0, lo - 1, lo, hi - 1, hi}, cb, "thresholds", "the cluster count is compared with %s; the specification says count < 4085 => FAT12 (unsupported), < 65525 => FAT16, else FAT32" % sorted(cmpc), cb.loc(0))
+    oks = [x[0] for x in ok_returns(cb)]
+    ftv = F.variants("fat::FatType")
+
+    def classes(rs, cut):
+        """FatType constants that can be stored into .fat_type on the blocks rs"""
+        out = set()
+        def vals(t, depth=0):
+            t = strip_refs(t)
+            if t[0] == "agg" and t[2] and t[2].split("::")[-1] in ftv:
+                return {t[2].split("::")[-1]}
+            if t[0] == "c" and t[2] and t[2].split("::")[-1] in ftv:
+                return {t[2].split("::")[-1]}
+            if t[0] == "var" and depth < 4:
+                o = set()
+                for d in cb.defs().get(t[1], []):
+                    if d[0] == "assign" and d[1] in rs:
+                        o |= vals(cb.term_of_rvalue(d[3], d[1]), depth + 1)
+                    elif d[1] in rs:
+                        o.add("?")
+                return o
+            return {"?"}
+        for b, i, s_ in cb.stmts():
+            if b in rs and s_["k"] == "Assign" and s_["p"]["proj"] and s_["p"]["proj"][-1][0] == "field" and s_["p"]["proj"][-1][2] == "fat_type":
+                out |= vals(cb.term_of_rvalue(s_["rv"], b))
+        return out
+
+    bad = []
+    for v in (0, 1, lo - 2, lo - 1, lo, lo + 1, 30000, hi - 2, hi - 1, hi, hi + 1, 0x0FFFFFF5, 0xFFFFFFFF):
+        want = None if v < lo else ("Fat16" if v < hi else "Fat32")
+        cut0 = specialise_on(cb, is_cc, v)
+        rs0 = cb.reach([0], cut_edges=cut0)
+        cls = classes(rs0, cut0)
+        if want is None:
+            if any(b in rs0 for b in oks):
+                bad.append("count %d (FAT12) can be accepted" % v)
+            continue
+        if cls != {want}:
+            bad.append("count %d is classified %s, expected %s" % (v, sorted(cls), want))
+            continue
+        for ver in (0, 1, 0x0100):
+            cut = resolve_bool_temps(cb, cut0 + specialise_enum(cb, is_ft, ftv, want) + specialise_on(cb, call_is("Bpb::fs_ver"), ver))
+            rs = cb.reach([0], cut_edges=cut)
+            okr = any(b in rs for b in oks)
+            if want == "Fat16" and not okr:
+                bad.append("a FAT16 volume (count %d) is refused (bytes 42..44 = %#x are not BPB_FSVer on FAT16)" % (v, ver))
+            if want == "Fat32" and okr != (ver == 0):
+                bad.append("FAT32 (count %d) with BPB_FSVer = %#x is %s" % (v, ver, "accepted" if okr else "refused"))
+    R.require(not [x for x in bad if "FSVer" not in x], cb, "classification", "; ".join(x for x in bad if "FSVer" not in x), cb.loc(0), okdetail="13 boundary cluster counts classified as the specification says")
+    R.require(not [x for x in bad if "FSVer" in x], cb, "fs_ver", "FAT32 must be accepted only with BPB_FSVer == 0: " + "; ".join(x for x in bad if "FSVer" in x), cb.loc(0))
+    # boot sector signature
+    fc = compared_constants(cb, call_is("Bpb::footer"))
+    okf = fc == {S["bpb_footer_value"]}
+    for v in (S["bpb_footer_value"], 0, 0x55AA, S["bpb_footer_value"] ^ 1, S["bpb_footer_value"] ^ 0x8000, 0xFFFF):
+        rs = cb.reach([0], cut_edges=specialise_on(cb, call_is("Bpb::footer"), v))
+        okf = okf and (any(b in rs for b in oks) == (v == S["bpb_footer_value"]))
+    R.require(okf, cb, "bpb-footer", "boot sector must be rejected without the 0xAA55 signature", cb.loc(0))
     pv = F.fn("fat::volume::parse_volume")
-    g512 = any(g.kind == "bool" and g.term[0] == "cmp" and "bytes_per_block" in tstr(g.term) and "0x200" in tstr(g.term) for (_b, _i, g) in all_guards(pv))
-    R.require(g512, pv, "fat16-512", "FAT16 volumes must have 512-byte blocks", pv.loc(0))
+    lit16 = [b for b, i, s_ in pv.stmts() if s_["k"] == "Assign" and s_["rv"]["k"] == "Aggregate" and s_["rv"].get("adt", "").endswith("Fat16Info")]
+    bc = compared_constants(pv, call_is("Bpb::bytes_per_block"))
+    ok512 = bool(lit16) and bc == {512}
+    for v in (0, 256, 511, 512, 513, 1024, 4096, 65535):
+        rs = pv.reach([0], cut_edges=specialise_on(pv, call_is("Bpb::bytes_per_block"), v))
+        ok512 = ok512 and (any(b in rs for b in lit16) == (v == 512))
+    R.require(ok512, pv, "fat16-512", "FAT16 volumes must have 512-byte blocks", pv.loc(0))
     # FSInfo
     ci = F.fn("fat::info::InfoSector::create_from_bytes")
-    sigs = set()
-    for (gb, gi, g) in all_guards(ci):
-        if g.kind == "bool" and g.term[0] == "cmp":
-            s_ = tstr(g.term)
-            for nm in ("lead_sig", "struc_sig", "trail_sig"):
-                if nm + "(" in s_ and nm.upper() in s_:
-                    sigs.add(nm)
-    R.require(sigs == {"lead_sig", "struc_sig", "trail_sig"}, ci, "fsinfo-sigs", "FSInfo must be rejected unless all three signatures match (checked: %s)" % sorted(sigs), ci.loc(0))
+    oki = [x[0] for x in ok_returns(ci)]
+    sig = {"lead_sig": S["info_sigs"]["LEAD_SIG"], "struc_sig": S["info_sigs"]["STRUC_SIG"], "trail_sig": S["info_sigs"]["TRAIL_SIG"]}
+    checked = set()
+    rs = ci.reach([0], cut_edges=specialise_all(ci, [(call_is("InfoSector::" + nm), v) for nm, v in sig.items()]))
+    all_ok = any(b in rs for b in oki)
+    for nm in sig:
+        refused = True
+        for wrong in (0, sig[nm] ^ 1, sig[nm] ^ 0x80000000, int.from_bytes(sig[nm].to_bytes(4, "little"), "big")):
+            if wrong == sig[nm]:
+                continue
+            rs = ci.reach([0], cut_edges=specialise_all(ci, [(call_is("InfoSector::" + n2), (wrong if n2 == nm else v2)) for n2, v2 in sig.items()]))
+            refused = refused and not any(b in rs for b in oki)
+        if refused and compared_constants(ci, call_is("InfoSector::" + nm)) == {sig[nm]}:
+            checked.add(nm)
+    R.require(all_ok and checked == set(sig), ci, "fsinfo-sigs", "FSInfo must be accepted with, and rejected unless, all three signatures match (checked: %s%s)" % (sorted(checked), "" if all_ok else "; a correct sector is refused"), ci.loc(0))
     for nm, unknown in (("free_clusters_count", {0xFFFFFFFF}), ("next_free_cluster", {0xFFFFFFFF, 0, 1})):
         f = F.fn("fat::info::InfoSector::" + nm)
         vals = set()
@@ -272,31 +374,54 @@ def mt4(F, R):
     R.require(sel == want, orv, "mbr:slot-selection", "partition slot offsets %s, expected %s" % (sel, want), orv.loc(0))
     # how the entry is used: parse_volume is reached only under (status & 0x7F) == 0 (0x00 and 0x80 are the valid status bytes),
     # with the type byte in the accepted set, and is given LE u32 [8..12) as start and [12..16) as length of *that* entry
-    from .mir import strip_refs, subterms
     pvs = [(b, t) for b, t in orv.calls() if (t.get("callee") or "").endswith("parse_volume")]
     R.require(len(pvs) == 1, orv, "mbr:parse-site", "expected one parse_volume call in open_raw_volume", orv.loc(0))
     for b, t in pvs:
-        def status_ok(g):
-            if not (g.kind == "bool" and g.truth is True and g.term[0] == "cmp" and g.term[1] == "Eq" and g.term[3][:2] == ("c", 0)):
-                return False
-            a = g.term[2]
-            if not (a[0] == "bin" and a[1] == "BitAnd"):
-                return False
-            for x, y in ((a[2], a[3]), (a[3], a[2])):
-                if y[:2] == ("c", 0x7F) and x[0] == "place" and any(isinstance(e, tuple) and e[0] == "idx" and e[1][:2] == ("c", M["status"]) for e in x[2]):
-                    return True
+        from .dataflow import var_def_terms
+        starts = {M["partition_table"] + 16 * k for k in range(4)}
+
+        def entry_slice(x, depth=0):
+            """x is (a reference to) one of the four 16-byte partition entries: block[446+16i .. +16]"""
+            x = strip_refs(x)
+            if x[0] == "var" and depth < 3:
+                ds = var_def_terms(orv, x[1])
+                return bool(ds) and all(entry_slice(d, depth + 1) for d in ds)
+            if x[0] == "call" and x[1] and x[1].endswith(("Index::index", "::index")):
+                r = strip_refs(x[2][1])
+                return r[0] == "agg" and r[2] and r[2].endswith("Range") and r[3][0][0] == "c" and r[3][0][1] in starts and r[3][1][0] == "c" and r[3][1][1] == r[3][0][1] + 16
+            if x[0] == "place" and not any(isinstance(e, tuple) for e in x[2]):
+                return entry_slice(x[1], depth + 1)
             return False
-        R.require(guarded(orv, b, status_ok)[0], orv, "mbr:status-mask", "a partition is mounted without (status & 0x7F) == 0: 0x00 and 0x80 (active) are the two valid status bytes, anything else must be refused and 0x80 must be accepted", orv.loc(b))
-        types = set()
-        for (gb, gi, g) in all_guards(orv):
-            if g.kind == "value" and orv.unreachable_without(b, [(gb2, gi2) for (gb2, gi2, g2) in all_guards(orv) if g2.kind == "value" and tstr(g2.term) == tstr(g.term)]) and any(isinstance(e, tuple) and e[0] == "idx" and e[1][:2] == ("c", M["type"]) for q in subterms(g.term) if q[0] == "place" for e in q[2]):
-                if b in orv.reach([orv.succ(gb)[gi][0]]):
-                    types.add(g.value)
-        R.require(types == set(M["fat_types"]), orv, "mbr:type-dispatch", "parse_volume is reached for partition types %s, expected %s" % (sorted(types), sorted(M["fat_types"])), orv.loc(b))
-        a1 = tstr(strip_refs(orv.term_of_operand(t["args"][1], b)))
-        a2 = tstr(strip_refs(orv.term_of_operand(t["args"][2], b)))
-        okl = "read_u32(" in a1 and "Range{PARTITION_INFO_LBA_START_INDEX=8, 0xc}" in a1 and "read_u32(" in a2 and "Range{PARTITION_INFO_NUM_BLOCKS_INDEX=0xc, 0x10}" in a2
-        R.require(okl, orv, "mbr:lba-and-length", "parse_volume must get LE u32 [8..12) as start block and [12..16) as block count of the selected entry; got (%s, %s)" % (a1[-70:], a2[-70:]), orv.loc(b))
+
+        def entry_byte(k):
+            def pred(q):
+                if q[0] != "place":
+                    return False
+                idx = [e for e in q[2] if isinstance(e, tuple) and e[0] in ("idx", "cidx")]
+                if len(idx) != 1 or not ((idx[0][0] == "idx" and idx[0][1][:2] == ("c", k)) or (idx[0][0] == "cidx" and idx[0][1] == k)):
+                    return False
+                return entry_slice(q[1])
+            return pred
+        accepted = {v for v in range(256) if b in orv.reach([0], cut_edges=specialise_on(orv, entry_byte(M["status"]), v))}
+        R.require(accepted == {0x00, 0x80} and compared_constants(orv, entry_byte(M["status"])), orv, "mbr:status-mask", "a partition is mounted for the status bytes %s: 0x00 and 0x80 (active) are the two valid status bytes, anything else must be refused and 0x80 must be accepted" % sorted(hex(v) for v in accepted)[:8], orv.loc(b))
+        types = {v for v in range(256) if b in orv.reach([0], cut_edges=specialise_on(orv, entry_byte(M["type"]), v))}
+        R.require(types == set(M["fat_types"]) and compared_constants(orv, entry_byte(M["type"])), orv, "mbr:type-dispatch", "parse_volume is reached for partition types %s, expected %s" % (sorted(types)[:12], sorted(M["fat_types"])), orv.loc(b))
+
+        def le32_at(x, off):
+            x = strip_refs(x)
+            for q in subterms(x):
+                le = q[0] == "call" and q[1] and q[1].endswith("read_u32") and isinstance(q[3], int) and "LittleEndian" in orv.term(q[3]).get("callee_full", "")
+                if le or (q[0] == "call" and q[1] and q[1].endswith("u32::from_le_bytes")):
+                    for q2 in subterms(q):
+                        if q2[0] == "call" and q2[1] and q2[1].endswith(("Index::index", "::index")) and entry_slice(q2[2][0]):
+                            r = strip_refs(q2[2][1])
+                            if r[0] == "agg" and r[2] and r[2].endswith("Range") and r[3][0][:2] == ("c", off) and r[3][1][:2] == ("c", off + 4):
+                                return True
+            return False
+        a1 = orv.term_of_operand(t["args"][1], b)
+        a2 = orv.term_of_operand(t["args"][2], b)
+        okl = le32_at(a1, M["lba_start"]) and le32_at(a2, M["num_blocks"])
+        R.require(okl, orv, "mbr:lba-and-length", "parse_volume must get LE u32 [8..12) as start block and [12..16) as block count of the selected entry; got (%s, %s)" % (tstr(a1)[-70:], tstr(a2)[-70:]), orv.loc(b))
 
 
 # ---------------------------------------------------------------------------------------
